@@ -69,15 +69,58 @@ func (h *half) close() {
 	h.mu.Unlock()
 }
 
+// stallGate models a receiver that stopped reading (a closed transport window): while the
+// gate is stalled every Write on the stream blocks before a single byte is handed over.
+type stallGate struct {
+	mu      sync.Mutex
+	cond    *sync.Cond
+	stalled bool
+	blocked int // writers currently parked at the gate
+}
+
+func newStallGate() *stallGate {
+	g := &stallGate{}
+	g.cond = sync.NewCond(&g.mu)
+	return g
+}
+
+func (g *stallGate) set(stalled bool) {
+	g.mu.Lock()
+	g.stalled = stalled
+	g.cond.Broadcast()
+	g.mu.Unlock()
+}
+
+func (g *stallGate) wait() {
+	g.mu.Lock()
+	for g.stalled {
+		g.blocked++
+		g.cond.Wait()
+		g.blocked--
+	}
+	g.mu.Unlock()
+}
+
+func (g *stallGate) parked() int {
+	g.mu.Lock()
+	defer g.mu.Unlock()
+	return g.blocked
+}
+
 // memStream is one end of a duplex in-memory stream (implements stream.Stream).
 type memStream struct {
 	r, w *half
+	// gate, if set, blocks Write while the far end is "not reading".
+	gate *stallGate
 	// tap observes every Write (stream_packet.Session writes one whole frame per Write).
 	tap func(frame []byte)
 }
 
 func (s *memStream) Read(b []byte) (int, error) { return s.r.read(b) }
 func (s *memStream) Write(b []byte) (int, error) {
+	if s.gate != nil {
+		s.gate.wait()
+	}
 	if s.tap != nil {
 		s.tap(append([]byte(nil), b...))
 	}
@@ -189,9 +232,12 @@ var quietLog = func() *logrus.Entry {
 	return logrus.NewEntry(l)
 }()
 
-func newNode(idx int, k *key) *node {
+func newNode(idx int, k *key) *node { return newNodeCfg(idx, k, &floodsub.Config{}) }
+
+// newNodeCfg builds a router with the given configuration (PublishHashType).
+func newNodeCfg(idx int, k *key, cfg *floodsub.Config) *node {
 	ctx, cancel := context.WithCancel(context.Background())
-	ps, err := floodsub.NewFloodSub(ctx, quietLog, nil, &floodsub.Config{})
+	ps, err := floodsub.NewFloodSub(ctx, quietLog, nil, cfg)
 	if err != nil {
 		panic(err)
 	}
